@@ -106,6 +106,8 @@ class Contract(object):
         senv.update(self.spec_env)
         senv.update(env)
         caller = it.target.name if it.target else '?'
+        for k, src in self.olds.items():
+            senv[k] = it.eval_spec(src, senv)
         for label, src in self.requires:
             c = it.spec_bool(src, senv)
             p.oblige('%s.pre@%s.%s' % (caller, self.name, label), zbool(c), kind='pre')
